@@ -301,6 +301,9 @@ async def _stack_history(loop: Any, hist: dict) -> dict:
         if idx < len(model):
             reported[ts_str(model[idx])] = model[idx]
         rp = f"RP --- {CTL} {frame[7:16]} --:------ 0418 022 {pl}"
+        if fate == "foreign-null":
+            # a neighbour's controller answers ITS gateway with a null entry, on the air between our request's echo and our controller's reply
+            loop.call_later(0.015, eth.inject, f"RP --- 01:222222 18:222222 --:------ 0418 022 {NULL}")
         if fate != "lose-rp":
             loop.call_later(0.03 + (0.4 if fate == "delay" else 0.0), eth.inject, rp)
             if fate == "dup":
@@ -333,7 +336,7 @@ async def _stack_history(loop: Any, hist: dict) -> dict:
                 except Exception as x:  # noqa: BLE001
                     rec["raised"] = f"{type(x).__name__}: {x}"[:160]
                 rec["took"] = loop.time() - t0
-                rec["clean"] = all(hist["fates"].get(str(i), "ok") in ("ok", "dup", "delay") for i in range(rq0 + 1, n_rq[0] + 1))
+                rec["clean"] = all(hist["fates"].get(str(i), "ok") in ("ok", "dup", "delay", "foreign-null") for i in range(rq0 + 1, n_rq[0] + 1))
                 rec["limit"] = op[1]
             await vclock.quiesce()
             try:
@@ -408,7 +411,7 @@ def explore_stack(job: dict) -> dict:
         if draw(st.booleans()):
             for i in range(1, 60):
                 if draw(st.integers(0, 9)) == 0:
-                    fates[str(i)] = draw(st.sampled_from(("lose-req", "lose-rp", "dup", "delay")))
+                    fates[str(i)] = draw(st.sampled_from(("lose-req", "lose-rp", "dup", "delay", "foreign-null", "foreign-null")))
         if draw(st.integers(0, 3)) == 0:  # a run of losses that outlasts the retries
             a = draw(st.integers(1, 10))
             for i in range(a, a + 5):
